@@ -3,7 +3,19 @@ import json
 import os
 import time
 
-from .facts import VERIF
+from .facts import VERIF, REPO
+
+
+def out_dir():
+    """Where reports and evidence go.  Runs against /repo write the committed records under /verif;
+    runs pointed at a scratch copy (PALLAS_REPO=..., used for seeded mutations) write to
+    $VERIF_OUT or <scratch>/.verif-out so they never overwrite the records of the real tree."""
+    o = os.environ.get("VERIF_OUT")
+    if o:
+        return o
+    if os.path.realpath(REPO) != "/repo":
+        return os.path.join(REPO, ".verif-out")
+    return VERIF
 
 
 class Result:
@@ -78,7 +90,7 @@ def finish(res, explanation, rule_text, trusted_base=None, checker_cmd=None):
         else:
             new.append(v)
     wall = time.time() - res.t0
-    rep_path = os.path.join(VERIF, "reports", res.prop + ".json")
+    rep_path = os.path.join(out_dir(), "reports", res.prop + ".json")
     os.makedirs(os.path.dirname(rep_path), exist_ok=True)
     with open(rep_path, "w") as fh:
         json.dump({
@@ -101,7 +113,8 @@ def finish(res, explanation, rule_text, trusted_base=None, checker_cmd=None):
         "explanation": explanation,
         "rule": rule_text,
         "obligations": n_obl,
-        "discharged": n_dis + len(seen_known) if res.level != "proof" else n_dis,
+        "discharged": n_dis,
+        "known_findings": len(seen_known),
         "evaluations": max(n_obl, 1),
         "distinct_nontrivial": max(distinct, 0),
         "samples": res.samples[:25] if res.samples else [o for o in res.obligations[:10]],
@@ -122,7 +135,7 @@ def finish(res, explanation, rule_text, trusted_base=None, checker_cmd=None):
         "wall_s": round(wall, 3),
         "violations": len(new),
     }
-    ev_path = os.path.join(VERIF, "evidence", res.prop + ".json")
+    ev_path = os.path.join(out_dir(), "evidence", res.prop + ".json")
     os.makedirs(os.path.dirname(ev_path), exist_ok=True)
     with open(ev_path, "w") as fh:
         json.dump(ev, fh, indent=1, default=str)
